@@ -71,3 +71,44 @@ Proof.
   - reflexivity.
   - destruct i as [|[|[|i]]]; cbn; try reflexivity. destruct i; reflexivity.
 Qed.
+
+(* ---- consecutive periods and interval-weighted integration (C11) ---- *)
+Theorem accumulate_periods_is_sum n f l : forall start r, wf_res n start -> Forall (wf_res n) l ->
+  accumulate_periods start l = Merged r -> fig f r == fig f start + fig_sum f l /\ wf_res n r.
+Proof.
+  induction l as [|c l IH]; intros start r Ws Wl H.
+  - cbn in H. inversion H; subst. split; [cbn; ring|exact Ws].
+  - unfold accumulate_periods in H. cbn [fold_left] in H.
+    destruct (merge false start c) as [m| |] eqn:M.
+    + inversion Wl as [|? ? Wc Wl']; subst.
+      destruct (fig_merge n false start c m f Ws Wc M) as [E Wm].
+      fold (accumulate_periods m l) in H. destruct (IH m r Wm Wl' H) as [E2 Wr].
+      split; [rewrite E2, E; cbn [fig_sum]; ring|exact Wr].
+    + exfalso. clear -H. induction l as [|x l IHl]; cbn in H; [discriminate|apply IHl, H].
+    + exfalso. clear -H. induction l as [|x l IHl]; cbn in H; [discriminate|apply IHl, H].
+Qed.
+
+Lemma qdot_app a1 a2 b1 b2 : length a1 = length b1 -> qdot (a1 ++ a2) (b1 ++ b2) == qdot a1 b1 + qdot a2 b2.
+Proof.
+  revert b1; induction a1 as [|x a1 IH]; intros [|y b1] H; cbn in *; try discriminate; [ring|].
+  rewrite IH by congruence. ring.
+Qed.
+
+Lemma qdot_scale k a b : qdot a (map (Qmult k) b) == k * qdot a b.
+Proof.
+  revert b; induction a as [|x a IH]; intros [|y b]; cbn; try ring. rewrite IH. ring.
+Qed.
+
+(* reordering the intervals together with their inputs: a permutation of the (input, interval) pairs *)
+Fixpoint pdot {X} (g : X -> Q) (l : list (X * Q)) : Q :=
+  match l with [] => 0 | (x, d) :: t => g x * d + pdot g t end.
+Lemma pdot_integrate {X} (g : X -> Q) xs dt : length xs = length dt ->
+  integrate g xs dt == pdot g (combine xs dt).
+Proof.
+  unfold integrate. revert dt; induction xs as [|x xs IH]; intros [|d dt] H; cbn in *; try discriminate; [reflexivity|].
+  rewrite IH by congruence. reflexivity.
+Qed.
+Lemma pdot_perm {X} (g : X -> Q) l l' : Permutation l l' -> pdot g l == pdot g l'.
+Proof.
+  induction 1 as [|[x d] l l' _ IH|[x d] [y e] l|l l' l'' _ IH1 _ IH2]; cbn [pdot]; lra.
+Qed.
